@@ -2,6 +2,7 @@
 families decide which property.  Drivers generate cases TLC did not enumerate (larger random
 instances, boundary grids, the repository's examples) in the same case format; they never judge."""
 import json, os, itertools, copy
+import pipeline
 
 UNIT = 256
 Q = UNIT // 4
@@ -251,6 +252,31 @@ def drv_electre(tier, rng):
     return groups
 
 
+# ---------------------------------------------------------------- bias pipeline
+def pcase(req, **kw):
+    c = {'fam': 'pipeline', 'unit': pipeline.PU, 'hook': True, 'probe': True, 'bias': True, 'via': 'lib',
+         'expect': 'ok', 'failprop': 'C07', 'req': req}
+    c.update(kw)
+    exact = all(b['name'] in ('criteriaOmission', 'preferenceReversal') for b in req.get('biases', []))
+    c.setdefault('methodref', exact)
+    return c
+
+
+def drv_pipeline(tier, rng):
+    groups = []
+    # catalogue: every method x every single bias and every ordered pair of biases
+    seqs = [[b] for b in pipeline.BIASES] + [[a, b] for a in pipeline.BIASES for b in pipeline.BIASES]
+    reps = 1 if tier == 'quick' else 6
+    for _ in range(reps):
+        for mth in pipeline.METHODS:
+            for sq in seqs:
+                groups.append([pcase(pipeline.pipeline_case(rng, mth, list(sq)))])
+    N = 300 if tier == 'quick' else 6000
+    for _ in range(N):
+        groups.append([pcase(pipeline.pipeline_case(rng))])
+    return groups
+
+
 def nt_ties(o):
     """non-trivial for ranking shape: at least two entries and at least one tie or two levels"""
     r = o.get('resp', {}).get('result', [])
@@ -301,6 +327,9 @@ FAMILIES = {
         'mc_sample': {'quick': 600, 'thorough': 20000}, 'mc_workers': 12,
         'mode': 'decide', 'trace': 'Trace_Decide', 'drivers': [drv_electre], 'chunk_lines': 80, 'trace_chunks': 12,
     },
+    'pipeline': {
+        'mode': 'decide', 'trace': 'Trace_Decide', 'drivers': [drv_pipeline],
+    },
     'majority': {
         'mc': 'MC_Majority',
         'mc_cfg': {'quick': 'MC_Majority_quick.cfg', 'thorough': 'MC_Majority_thorough.cfg'},
@@ -331,7 +360,13 @@ def nt_electre2(o):
     return len({e['evaluation']['ascendingIndex'] for e in r}) >= 2 or len({e['evaluation']['descendingIndex'] for e in r}) >= 2
 
 
+def nt_pipeline(o):
+    return sum(1 for e in o.get('events', []) if e.get('kind') == 'bias' and e.get('fired')) >= 1
+
+
 PROPS = {
+    'C07': {'families': ['pipeline'], 'nontrivial': nt_pipeline,
+            'rule': 'non-trivial = request in which at least one bias fired; distinct by request'},
     'C06': {'families': ['electre'], 'nontrivial': nt_electre2,
             'rule': 'non-trivial = accepted ELECTRE III request whose two preorders are not both a single class; distinct by request'},
     'C05': {'families': ['electre_s2', 'electre'], 'nontrivial': nt_electre2,
